@@ -385,6 +385,21 @@ def run(ctx):
     import C20_mirror
     import C20_mirror_replay
     C20_mirror.check(ctx, prog)
+    # every frame handed to a session's write task reaches the transport once, in order (the task between the outbound queue and the byte stream)
+    import C20_writer
+    import C20_writer_replay
+    C20_writer.check(ctx, prog)
+    try:
+        resw = [C20_writer_replay.run_native(300, 1000), C20_writer_replay.run_native(40, 10)]
+        ctx.translator_validated += len(resw)
+        ctx.extra['writer_native'] = resw
+        badw = [r for r in resw if r['violated']]
+        if badw:
+            rec = {'name': 'writer.native_battery', 'group': 'C20.writer', 'solver_s': 0.0, 'status': 'cex'}
+            ctx.obligations.append(rec)
+            ctx.handle_cex(rec['name'], 'C20.writer.native', None, lambda _m: {'replayed': True, 'detail': 'real write task with a queued backlog: %s' % badw, 'replay': {'which': 'writer'}}, rec)
+    except RuntimeError as e:
+        ctx.inconclusive.append('writer native scenario unavailable: %s' % str(e)[-300:])
     try:
         bad, n = C20_mirror_replay.battery()
         ctx.translator_validated += n
@@ -408,6 +423,9 @@ def replay_file(path):
             bad += C20_announce_replay.evaluate(rp['advertised'], rp['remotable'], rp['event'])[0]
         print('native handle_supervisor_evt announce arms:', bad)
         return 1 if bad else 0
+    if d['replay'].get('which') == 'writer':
+        import C20_writer_replay
+        return C20_writer_replay.replay_from_json(d)
     if d['replay'].get('which') in ('mirror', 'mirror_battery'):
         import C20_mirror_replay
         bad, _n = C20_mirror_replay.battery()
